@@ -576,23 +576,23 @@ def selftest(r, cases, work):
 PLAN = {
     # (cfg, constant overrides); KEEP* are per-mille of the choices kept by the seeded thinning
     "quick": [
-        ("loop", {"LOOPEVERY": "{1, 33}"}),
-        ("kinds", {"KEEP1": 160}),
-        ("pairs", {"KEEP2": 60}),
-        ("threads", {"KEEP1": 250, "KEEP2": 120, "KEEPR": 45}),
-        ("deep", {"KEEP1": 50, "KEEP2": 22, "KEEPR": 10}),
+        ("loop", {"LOOPEVERY": "{3, 33}"}),
+        ("deep", {"KEEP1": 40, "KEEP2": 20, "KEEPR": 9}),
+        ("kinds", {"KEEP1": 150}),
+        ("pairs", {"KEEP2": 55}),
+        ("threads", {"KEEP1": 250, "KEEP2": 110, "KEEPR": 40}),
     ],
     "thorough": [
         ("loop", {"LOOPN": "{5, 40, 70}"}),
+        ("deep", {"KEEP1": 60, "KEEP2": 28, "KEEPR": 12}),
         ("kinds", {"KEEP1": 550}),       # KEEP1 = 1000 is the exhaustive product (2.0e5 programs)
         ("pairs", {"KEEP2": 280}),       # KEEP2 = 1000: 6e5 programs
         ("threads", {"KEEP1": 300, "KEEP2": 150, "KEEPR": 60}),
-        ("deep", {"KEEP1": 60, "KEEP2": 28, "KEEPR": 12}),
     ],
 }
 MAIN_ENVS = ["jit", "nojit"]
 SAMPLE_ENVS = ["inline", "nolift", "inline-nojit"]
-SAMPLE_SIZE = {"quick": 900, "thorough": 5000}
+SAMPLE_SIZE = {"quick": 600, "thorough": 5000}
 
 
 def tlc_producer(tier, seed, work, q):
